@@ -13,7 +13,7 @@ IsStart(j) == j = 1 \/ Events[j].sess # Events[j-1].sess
 St0 == [zs |-> <<>>, produced |-> 0]
 Verdict(e, ok, class, kind) == <<e.id, IF ok THEN "ok" ELSE "dev", e.prop, class, IF ok THEN "-" ELSE kind>>
 New1(e) == /\ tst' = [zs |-> Start(e.key, e.iv), produced |-> 0]
-           /\ tlast' = Verdict(e, e.outcome = "ok", "new", e.outcome)
+           /\ tlast' = Verdict(e, e.outcome = "ok", IF Len(e.key) = 16 /\ Len(e.iv) = 16 /\ FirstRoundBoundary(e.key, e.iv) THEN "new.add31-boundary" ELSE "new", e.outcome)
 ReqClass(e) == IF e.n = 0 THEN "zero-length" ELSE IF tst.produced = 0 THEN "first" ELSE "continued"
 \* on a deviation the specification state still advances by n words (resync), so later requests are judged on their own
 Req2(e, r) == /\ tst' = [zs |-> r[2], produced |-> tst.produced + e.n]
